@@ -35,7 +35,7 @@ ASSUMPTIONS = [
     "callables (geometric checks, momentum distributions) are not part of the serialized state; workloads use the defaults",
     "calculators are deterministic functions of the configuration",
 ]
-REQUIRED = {"second_rebuilds_from_one_dictionary": 20, "resumes_compared": 60, "steps_compared": 300, "workloads_with_restart_file": 12, "resumes_from_step_zero": 10, "resumes_from_last_step": 10}
+REQUIRED = {"reference_runs_retuned_live": 5, "second_rebuilds_from_one_dictionary": 20, "resumes_compared": 60, "steps_compared": 300, "workloads_with_restart_file": 12, "resumes_from_step_zero": 10, "resumes_from_last_step": 10}
 SHARD_TIMEOUT = {"quick": 900, "thorough": 3000}
 
 
@@ -86,16 +86,28 @@ def reduced_digest(mc):
     return sims.state_digest(mc)
 
 
-def reference(w, seed, n):
+def reference(w, seed, n, retune_at=None):
     from qv import sims
 
     rst = io.StringIO()
     mc, _ = sims.build({**w, "seed": seed}, restart_file=rst, logging_interval=1)
     docs, dig, red, verdicts = [], [], [], []
+    away = None
+    if retune_at is not None:
+        # the live simulation is re-tuned in mid-run through its documented attributes (temperature, pressure, stress,
+        # chemical potential, weights, step lengths, biases, time step): restart files written from then on describe the
+        # new configuration, and a simulation rebuilt from them must continue exactly like the re-tuned one
+        from qv.props import c06 as _c06
+
+        w_off, todo_back = _c06.detuned(w)
+        mc_off, _ = sims.build({**w_off, "seed": seed})
+        away = _c06.detune_values(mc_off, todo_back)
     for step in mc.irun(n):
         docs.append(rst.getvalue())
         dig.append(sims.state_digest(mc))
         red.append(reduced_digest(mc))
+        if away is not None and len(docs) - 1 == retune_at:
+            _c06.retune(mc, away)  # after the observers of step retune_at, before the trials of the next step
         if hasattr(step, "__next__"):
             for _ in step:
                 pass
@@ -108,7 +120,7 @@ def reference(w, seed, n):
     return docs, dig, red, verdicts
 
 
-def resume_streams(w, docs, ks, n):
+def resume_streams(w, docs, ks, n, retune_at=None):
     """Child side: for each k load docs[k] the documented way and run n-k steps."""
     from ase.io.jsonio import read_json
 
@@ -135,15 +147,25 @@ def resume_streams(w, docs, ks, n):
             mc.atoms.calc = sims.build_calc(w.get("calc", {}), sims.build_atoms(w.get("atoms", {}))[0])
             first = reduced_digest(mc)
             stream = []
+            away = None
+            if retune_at is not None and k <= retune_at:
+                # a resume from before the re-tuning replays it at the same point of the history
+                from qv.props import c06 as _c06
+
+                w_off, todo_back = _c06.detuned(w)
+                mc_off, _ = sims.build({**w_off, "seed": 1})
+                away = _c06.detune_values(mc_off, todo_back)
             for step in mc.irun(n - k):
                 stream.append(sims.state_digest(mc))  # state at step_count = k + len(stream) - 1, as in the reference
+                if away is not None and k + len(stream) - 1 == retune_at:
+                    _c06.retune(mc, away)
                 if hasattr(step, "__next__"):
                     for _ in step:
                         pass
             stream.append(sims.state_digest(mc))
             stream[0] = first
             out[str(k)] = {"ok": True, "stream": stream, "name": name}
-            if k % 4 == 1 and k < n:
+            if k % 4 == 1 and k < n and (retune_at is None or k > retune_at):
                 # the same loaded dictionary used a second time (a retry, or a second continuation through another entry
                 # point) after the first rebuilt simulation has run: it must give the same continuation again
                 mc2 = cls.from_dict(data)
@@ -171,7 +193,11 @@ def run(spec):
     seed = derive_seed("c07", spec["seed"], spec["wname"], spec["s"])
     wit0 = {"workload": spec["wname"], "driver": w["driver"], "seed": seed, "steps": n}
     try:
-        docs, dig, red, verdicts = reference(w, seed, n)
+        retune_at = (n // 3) if spec["s"] % 2 == 1 and w["driver"] not in ("MonteCarlo",) else None
+        docs, dig, red, verdicts = reference(w, seed, n, retune_at)
+        if retune_at is not None:
+            rec.count("reference_runs_retuned_live")
+            wit0["retuned_live_at_step"] = retune_at
     except Exception as ex:  # noqa: BLE001
         import traceback
 
@@ -186,7 +212,7 @@ def run(spec):
     e = dict(os.environ)
     e["PYTHONHASHSEED"] = str(7 + spec["s"])
     e["PYTHONPATH"] = env.VERIF + os.pathsep + env.SRC
-    payload = json.dumps({"w": w, "docs": docs, "ks": ks, "n": n})
+    payload = json.dumps({"w": w, "docs": docs, "ks": ks, "n": n, "retune_at": retune_at})
     try:
         p = subprocess.run([env.PY, "-m", "qv.props.c07", "--child"], input=payload, capture_output=True, text=True, timeout=900, env=e)
         res = json.loads(p.stdout.strip().splitlines()[-1]) if p.returncode == 0 else None
@@ -241,4 +267,4 @@ if __name__ == "__main__" and "--child" in sys.argv:
 
     _env.setup_path()
     job = json.loads(sys.stdin.read())
-    print(json.dumps(resume_streams(job["w"], job["docs"], job["ks"], job["n"])))
+    print(json.dumps(resume_streams(job["w"], job["docs"], job["ks"], job["n"], job.get("retune_at"))))
